@@ -10,9 +10,10 @@ returned cores (own longdouble contraction, `ref.dense_ld`, never
 * delta(n, i, v)                      v at i (negative i_k counted from the
   end), exactly 0 elsewhere;
 * vector_delta(q, i, v)               EXHAUSTIVE over i in [-2^q, 2^q) for
-  q <= 5 (quick) / q <= 11 (thorough); out-of-range i -> ValueError;
+  q <= 10 (quick) / q <= 14 (thorough); out-of-range i -> ValueError;
+  sampled positions for 33 <= q <= 64 (observed on the rank-1 cores);
 * matrix_delta(q, i, j, v)            EXHAUSTIVE over (i, j) in [-2^q, 2^q)^2
-  for q <= 5 (quick) / q <= 6 (thorough); position = little-endian bits of i
+  for q <= 5 (quick) / q <= 7 (thorough); position = little-endian bits of i
   and j on the interleaved export T[a_0, b_0, a_1, b_1, ...];
   teneva.full_matrix only as a secondary observer;
 * poly(n, shift, power, scale)        scale * sum_k (i_k + shift_k)^power with
@@ -64,8 +65,10 @@ RULE = ('const / delta / poly on random shapes (d = 2..12, mode sizes 1..6, '
     'lists built to agree with the protected index in most modes (drives '
     'the round-robin search) incl. conflicting requests; vector_delta and '
     'matrix_delta EXHAUSTIVELY over all positions incl. negative ones for '
-    'q <= 5 (quick) / q <= 11 resp. 6 (thorough) plus out-of-range '
-    'positions and sampled positions for 33 <= q <= 64; random constructors '
+    '2 <= q <= 10 resp. 5 (quick; q = 6 for two values) / q <= 14 resp. 7 '
+    '(thorough), every v in {1, -2.5, 0, 1e-30, 1e20, 3, -1, 1e-17, default}, '
+    'plus out-of-range positions and sampled positions for 33 <= q <= 64 '
+    '(observed on the rank-1 cores); random constructors '
     'under an auditing generator, scalar and per-bond (also over-large) '
     'ranks; rand_stab also in d = 1000..4000.  Non-trivial = distinct '
     '(constructor, shape or q, parameter class) where the expected tensor '
@@ -109,7 +112,7 @@ ASSUMPTIONS = [
     'run',
 ]
 SHARDS = {'quick': 12, 'thorough': 16}
-BUDGET_S = {'quick': 240, 'thorough': 1500}
+BUDGET_S = {'quick': 300, 'thorough': 3000}   # per-shard wall; idle-machine need: ~15 s / ~270 s
 
 KF_BIGQ = 'qtt-index-float-division'
 
@@ -123,6 +126,8 @@ SCALES = [1., -2.5, 5., 0.5, 1e3, -1e-3, 1., 2., 0.]
 # ---- case generation --------------------------------------------------------------
 
 def gen_cases(seed, tier):
+    """Random kinds come in batches (one descriptor = `count` sub-cases with
+    sub-seeds [seed, t]); the exhaustive delta sweeps are cut into chunks."""
     quick = tier == 'quick'
     rng = np.random.default_rng([seed, 1919])
     out = []
@@ -130,60 +135,67 @@ def gen_cases(seed, tier):
     def sub():
         return int(rng.integers(1 << 62))
 
-    def add(kind, count, **fixed):
-        for j in range(count):
-            c = {'kind': kind, 'seed': sub(), 'tier': tier, 'j': j}
-            c.update(fixed)
-            out.append(c)
+    B = 50 if quick else 250
+    mult = 1 if quick else 5          # thorough: 5 x 5 = 25 x the sub-cases
+    for kind, nb in [('const', 1600), ('delta', 900), ('poly', 1000),
+            ('rand', 500), ('rand_norm', 400), ('rand_custom', 400),
+            ('rand_stab', 500), ('vdelta_big', 40), ('mdelta_big', 40)]:
+        for b in range(nb * mult):
+            out.append({'kind': kind, 'seed': sub(), 'tier': tier,
+                'j0': b * B, 'count': B})
+    for b in range(300 if quick else 2400):
+        out.append({'kind': 'rand_stab_big', 'seed': sub(), 'tier': tier,
+            'j0': b, 'count': 1})
 
-    mult = 1 if quick else 14
-    # const: v cycles through VALUES, mode through the four request classes
-    modes = ['plain', 'zeros', 'protected', 'protected', 'conflict', 'plain']
-    fams = ['generic', 'generic', 'deep', 'd2', 'generic', 'mode1']
-    for j in range(1400 * mult):
-        out.append({'kind': 'const', 'seed': sub(), 'tier': tier,
-            'v': VALUES[j % len(VALUES)], 'mode': modes[(j // 3) % len(modes)],
-            'fam': fams[(j // 7) % len(fams)]})
-    for j in range(900 * mult):
-        out.append({'kind': 'delta', 'seed': sub(), 'tier': tier,
-            'v': VALUES[j % len(VALUES)], 'fam': fams[(j // 5) % len(fams)]})
-    for j in range(700 * mult):
-        out.append({'kind': 'poly', 'seed': sub(), 'tier': tier,
-            'power': j % 5, 'scale': SCALES[(j // 5) % len(SCALES)],
-            'shift_kind': ['float', 'int', 'list', 'ndarray', 'intlist'][
-                (j // 2) % 5], 'fam': fams[(j // 11) % len(fams)]})
-    for kind, cnt in [('rand', 500), ('rand_norm', 400), ('rand_custom', 400),
-            ('rand_stab', 400)]:
-        add(kind, cnt * mult)
-    add('rand_stab_big', 16 if quick else 200)
-
-    # exhaustive delta positions
-    qv = 5 if quick else 11
-    qm = 5 if quick else 6
+    # exhaustive delta positions: every v for every position
+    qv = 10 if quick else 14
+    qm = 5 if quick else 7
+    allv = DELTA_VALUES + ['default']
     for q in range(2, qv + 1):
         N = 1 << q
-        chunk = 64
-        for vi, v in enumerate(DELTA_VALUES + ['default']):
-            if q > 8 and vi % 3:
-                continue
+        chunk = 64 if q <= 11 else 16
+        for v in allv:
             for lo in range(-N, N, chunk):
                 out.append({'kind': 'vdelta', 'seed': sub(), 'q': q, 'v': v,
                     'lo': lo, 'hi': min(N, lo + chunk)})
-    for q in range(2, qm + 1):
+    for q in range(2, qm + 2):
         N = 1 << q
-        j = 0
-        for i in range(-N, N):
-            reps = DELTA_VALUES if q <= 3 else [DELTA_VALUES[j % len(
-                DELTA_VALUES)]] + (['default'] if j % 9 == 0 else [])
-            for v in reps:
-                out.append({'kind': 'mdelta', 'seed': sub(), 'q': q, 'i': i,
-                    'v': v})
-            j += 1
-    add('vdelta_big', 60 if quick else 600)
-    add('mdelta_big', 60 if quick else 600)
+        # one level above the fully swept ones: two values of v only (quick)
+        vs = allv if q <= qm else ([-2.5, 'default'] if quick else [])
+        for v in vs:
+            for i in range(-N, N):
+                if q <= 6:
+                    out.append({'kind': 'mdelta', 'seed': sub(), 'q': q,
+                        'i': i, 'v': v, 'jlo': -N, 'jhi': N})
+                else:
+                    for jlo in range(-N, N, 64):
+                        out.append({'kind': 'mdelta', 'seed': sub(), 'q': q,
+                            'i': i, 'v': v, 'jlo': jlo, 'jhi': jlo + 64})
 
     order = np.random.default_rng([seed, 77]).permutation(len(out))
     return [out[int(k)] for k in order]
+
+
+MODES = ['plain', 'zeros', 'protected', 'protected', 'conflict', 'plain']
+FAMS = ['generic', 'generic', 'deep', 'd2', 'generic', 'mode1']
+SHIFT_KINDS = ['float', 'int', 'list', 'ndarray', 'intlist']
+
+
+def want_sample(ctx):
+    return len(ctx.samples) < 3
+
+
+def judge_single(ctx, mon, T, idx, val, tol, msg):
+    """T must be `val` (+- tol) at idx and exactly zero elsewhere."""
+    flat = T.reshape(-1)
+    fp = int(np.ravel_multi_index(idx, T.shape))
+    nz = np.flatnonzero(flat)               # NaN counts as non-zero
+    extra = nz[nz != fp]
+    if extra.size:
+        where = [int(x) for x in np.unravel_index(int(extra[0]), T.shape)]
+        ctx.viol(mon, f'{msg}: found {float(flat[extra[0]])!r} at {where}')
+        return False
+    return ctx.close(mon, flat[fp], LD(val), tol, msg)
 
 
 def make_shape(rng, fam, tier, cap=4000):
@@ -231,10 +243,11 @@ def check_wf(ctx, Y, n, what, finite=True):
 # ---- const ------------------------------------------------------------------------
 
 def run_const(case, ctx, tv, rng):
-    n = make_shape(rng, case['fam'], case['tier'])
+    j = case['j']
+    n = make_shape(rng, FAMS[int(rng.integers(len(FAMS)))], case['tier'])
     d = len(n)
-    v = case['v']
-    mode = case['mode']
+    v = VALUES[j % len(VALUES)]          # every value is used equally often
+    mode = MODES[int(rng.integers(len(MODES)))]
     vv = np.float64(v) if isinstance(v, float) and rng.random() < 0.25 else v
     how = 'ndarray' if rng.random() < 0.4 else 'list'
     n_arg = np.array(n) if rng.random() < 0.4 else list(n)
@@ -324,18 +337,20 @@ def run_const(case, ctx, tv, rng):
     if v != 0 and (I_zero is None or (isz.any() and isv.any())):
         ctx.nontrivial(['const', n, mode, repr(v), 0 if I_zero is None
             else len(I_zero)])
-    ctx.sample({'call': desc, 'expected': f'{v!r} (tol {tol:.3g})'
-        + ('' if I_zero is None else ' or 0'),
-        'observed_min': float(T.min()), 'observed_max': float(T.max()),
-        'n_zero_entries': int(isz.sum()), 'n_entries': int(T.size)})
+    if want_sample(ctx):
+        ctx.sample({'call': desc, 'expected': f'{v!r} (tol {tol:.3g})'
+            + ('' if I_zero is None else ' or 0'),
+            'observed_min': float(T.min()), 'observed_max': float(T.max()),
+            'n_zero_entries': int(isz.sum()), 'n_entries': int(T.size)})
 
 
 # ---- delta ------------------------------------------------------------------------
 
 def run_delta(case, ctx, tv, rng):
-    n = make_shape(rng, case['fam'], case['tier'])
+    j = case['j']
+    n = make_shape(rng, FAMS[int(rng.integers(len(FAMS)))], case['tier'])
     d = len(n)
-    v = case['v']
+    v = VALUES[j % len(VALUES)]
     i = [int(rng.integers(-k, k)) if rng.random() < 0.5 else
         int(rng.integers(k)) for k in n]
     pos = tuple(x % k for x, k in zip(i, n))
@@ -352,17 +367,14 @@ def run_delta(case, ctx, tv, rng):
     if not check_wf(ctx, Y, n, desc):
         return
     T = ref.dense_ld(Y)
-    R = np.zeros(T.shape, dtype=LD)
-    R[pos] = LD(v)
-    tol = np.zeros(T.shape, dtype=LD)
-    tol[pos] = tol_root(v, d)
-    ctx.close('delta', T, R, tol, f'{desc}: expected v at {list(pos)} and '
-        'exactly 0 elsewhere')
+    judge_single(ctx, 'delta', T, pos, v, tol_root(v, d), f'{desc}: expected '
+        f'v at {list(pos)} and exactly 0 elsewhere')
     if v != 0 and T.size >= 2:
         ctx.nontrivial(['delta', n, repr(v), any(x < 0 for x in i)])
-    ctx.sample({'call': desc, 'position_from_start': list(pos),
-        'observed_there': float(T[pos]), 'nonzero_entries':
-        int(np.count_nonzero(T))})
+    if want_sample(ctx):
+        ctx.sample({'call': desc, 'position_from_start': list(pos),
+            'observed_there': float(T[pos]), 'nonzero_entries':
+            int(np.count_nonzero(T))})
 
 
 # ---- QTT deltas -------------------------------------------------------------------
@@ -375,6 +387,7 @@ def run_vdelta(case, ctx, tv, rng):
     q, v = case['q'], case['v']
     N = 1 << q
     first = True
+    val = 1. if v == 'default' else v
     for i in range(case['lo'], case['hi']):
         desc = f'vector_delta(q={q}, i={i}, v={v!r})'
         try:
@@ -384,7 +397,6 @@ def run_vdelta(case, ctx, tv, rng):
             ctx.viol('vector_delta', f'{desc} raised ValueError({ex}) for a '
                 'position inside [-2^q, 2^q)')
             continue
-        val = 1. if v == 'default' else v
         if not check_wf(ctx, Y, [2] * q, desc):
             continue
         p = i % N                      # negative positions count from the end
@@ -392,13 +404,10 @@ def run_vdelta(case, ctx, tv, rng):
             ctx.event('vdelta-negative-position')
         T = ref.dense_ld(Y)
         idx = tuple(bits_le(p, q))
-        R = np.zeros(T.shape, dtype=LD)
-        R[idx] = LD(val)
-        tol = np.zeros(T.shape, dtype=LD)
-        tol[idx] = 4 * q * EPS * abs(float(val))
-        ctx.close('vector_delta', T, R, tol, f'{desc}: expected v at position '
+        judge_single(ctx, 'vector_delta', T, idx, val,
+            4 * q * EPS * abs(float(val)), f'{desc}: expected v at position '
             f'{p} (little-endian bits {list(idx)}) and exactly 0 elsewhere')
-        if first:
+        if first and want_sample(ctx):
             first = False
             # the flat vector in the QTT convention (first core = lowest bit)
             vec = np.asarray(T, dtype=float).reshape(-1, order='F')
@@ -444,7 +453,7 @@ def run_mdelta(case, ctx, tv, rng):
     val = 1. if v == 'default' else v
     pi = i % N
     sampled = False
-    for j in range(-N, N):
+    for j in range(case['jlo'], case['jhi']):
         desc = f'matrix_delta(q={q}, i={i}, j={j}, v={v!r})'
         try:
             Y = tv.matrix_delta(q, i, j) if v == 'default' else \
@@ -462,11 +471,8 @@ def run_mdelta(case, ctx, tv, rng):
         for a, b in zip(bits_le(pi, q), bits_le(pj, q)):
             idx += [a, b]
         idx = tuple(idx)
-        R = np.zeros(T.shape, dtype=LD)
-        R[idx] = LD(val)
-        tol = np.zeros(T.shape, dtype=LD)
-        tol[idx] = 4 * q * EPS * abs(float(val))
-        ok = ctx.close('matrix_delta', T, R, tol, f'{desc}: expected v at '
+        ok = judge_single(ctx, 'matrix_delta', T, idx, val,
+            4 * q * EPS * abs(float(val)), f'{desc}: expected v at '
             f'bits(i)={bits_le(pi, q)}, bits(j)={bits_le(pj, q)} of the '
             'interleaved export and exactly 0 elsewhere')
         # secondary observer: teneva.full_matrix (code under test of C17)
@@ -479,15 +485,16 @@ def run_mdelta(case, ctx, tv, rng):
                 good = bool(np.all(np.abs(M - Rm) <= 4 * q * EPS * np.abs(Rm)))
             ctx.check('matrix_delta-full_matrix', good, f'{desc}: '
                 f'full_matrix(Y) is not v at [{pi}, {pj}] and 0 elsewhere')
-        if not sampled and j == (case['seed'] % (2 * N)) - N:
+        if not sampled and want_sample(ctx) and j == case['jlo'] + (
+                case['seed'] % (case['jhi'] - case['jlo'])):
             sampled = True
             ctx.sample({'call': desc, 'position_from_start': [pi, pj],
                 'observed_nonzero_interleaved_bits':
                     np.argwhere(np.asarray(T, dtype=float) != 0).tolist(),
                 'observed_value': float(T[idx])})
     if val != 0:
-        ctx.nontrivial(['mdelta', q, i, repr(v)])
-    if i in (-N, N - 1, 0, -1):
+        ctx.nontrivial(['mdelta', q, i, repr(v), case['jlo']])
+    if i in (-N, N - 1, 0, -1) and case['jlo'] == -N:
         for bi, bj in [(N, 0), (0, N), (-N - 1, 1), (1, -N - 1), (2 * N, 2 * N),
                 (N + 1, -1), (-1, N), (-2 * N, 0), (i, N), (N, i), (i, -N - 1)]:
             try:
@@ -568,8 +575,9 @@ def run_delta_big(case, ctx, tv, rng, matrix):
         f'{desc}: value of the non-zero element')
     if ok:
         ctx.nontrivial([name, 'bigq', q, i < 0])
-    ctx.sample({'call': desc, 'expected_position': exp,
-        'observed_position': got, 'observed_value': float(prod)})
+    if want_sample(ctx):
+        ctx.sample({'call': desc, 'expected_position': exp,
+            'observed_position': got, 'observed_value': float(prod)})
 
 
 # ---- poly -------------------------------------------------------------------------
@@ -582,9 +590,12 @@ def ld_of(fr):
 
 
 def run_poly(case, ctx, tv, rng):
-    n = make_shape(rng, case['fam'], case['tier'])
+    j = case['j']
+    n = make_shape(rng, FAMS[int(rng.integers(len(FAMS)))], case['tier'])
     d = len(n)
-    power, scale, kind = case['power'], case['scale'], case['shift_kind']
+    power = j % 5                        # 0..4, equally often
+    scale = SCALES[int(rng.integers(len(SCALES)))]
+    kind = SHIFT_KINDS[int(rng.integers(len(SHIFT_KINDS)))]
 
     def one(integer):
         if integer:
@@ -634,8 +645,9 @@ def run_poly(case, ctx, tv, rng):
     if power >= 1 and scale != 0 and T.size >= 2:
         ctx.nontrivial(['poly', n, power, kind, scale])
     i = tuple(int(rng.integers(k)) for k in n)
-    ctx.sample({'call': desc, 'index': list(i), 'observed': float(T[i]),
-        'expected': float(R[i])})
+    if want_sample(ctx):
+        ctx.sample({'call': desc, 'index': list(i), 'observed': float(T[i]),
+            'expected': float(R[i])})
 
 
 # ---- random constructors ------------------------------------------------------------
@@ -780,11 +792,12 @@ def run_rand(case, ctx, tv, rng, normal):
         'order cut of the recorded flat draw')
     if max(prof) >= 2:
         ctx.nontrivial([name, n, prof, rkind, p1, p2])
-    ctx.sample({'call': desc, 'recorded_draws': [[c['method'],
-        [float(x) for x in c['args']], {k: int(np.prod(v)) for k, v in
-        c['kw'].items()}] for c in calls], 'ranks': ref.ranks_of(Y),
-        'first_core_entry': float(Y[0].reshape(-1)[0]),
-        'first_recorded_value': float(flat[0])})
+    if want_sample(ctx):
+        ctx.sample({'call': desc, 'recorded_draws': [[c['method'],
+            [float(x) for x in c['args']], {k: int(np.prod(v)) for k, v in
+            c['kw'].items()}] for c in calls], 'ranks': ref.ranks_of(Y),
+            'first_core_entry': float(Y[0].reshape(-1)[0]),
+            'first_recorded_value': float(flat[0])})
 
 
 def run_rand_custom(case, ctx, tv, rng):
@@ -832,8 +845,9 @@ def run_rand_custom(case, ctx, tv, rng):
         'cut of the values returned by f')
     if max(prof) >= 2:
         ctx.nontrivial(['rand_custom', n, prof, rkind, fk])
-    ctx.sample({'call': desc, 'f_called_with': [int(np.prod(sz))
-        for sz, _ in rec], 'parameters': N, 'ranks': ref.ranks_of(Y)})
+    if want_sample(ctx):
+        ctx.sample({'call': desc, 'f_called_with': [int(np.prod(sz))
+            for sz, _ in rec], 'parameters': N, 'ranks': ref.ranks_of(Y)})
 
 
 def eye_pattern(prof, n, k):
@@ -941,40 +955,38 @@ def run_rand_stab(case, ctx, tv, rng, big):
     if rr >= 2 and noise > 0:
         ctx.nontrivial(['rand_stab', d if big else n, prof if not big
             else rr, rkind, noise])
-    ctx.sample({'call': desc, 'max_abs_entry_minus_1':
-        float(np.max(np.abs(obs - 1))), 'allowed': tol,
-        'max_core_perturbation': zmax})
+    if want_sample(ctx):
+        ctx.sample({'call': desc, 'max_abs_entry_minus_1':
+            float(np.max(np.abs(obs - 1))), 'allowed': tol,
+            'max_core_perturbation': zmax})
 
 
 # ---- dispatch ---------------------------------------------------------------------
 
+BATCHED = {
+    'const': run_const, 'delta': run_delta, 'poly': run_poly,
+    'rand': lambda c, x, tv, r: run_rand(c, x, tv, r, False),
+    'rand_norm': lambda c, x, tv, r: run_rand(c, x, tv, r, True),
+    'rand_custom': run_rand_custom,
+    'rand_stab': lambda c, x, tv, r: run_rand_stab(c, x, tv, r, False),
+    'rand_stab_big': lambda c, x, tv, r: run_rand_stab(c, x, tv, r, True),
+    'vdelta_big': lambda c, x, tv, r: run_delta_big(c, x, tv, r, False),
+    'mdelta_big': lambda c, x, tv, r: run_delta_big(c, x, tv, r, True),
+}
+
+
 def run_case(case, ctx):
     import teneva as tv
-    rng = np.random.default_rng(case['seed'])
     kind = case['kind']
-    if kind == 'const':
-        run_const(case, ctx, tv, rng)
-    elif kind == 'delta':
-        run_delta(case, ctx, tv, rng)
+    if kind in BATCHED:
+        fn = BATCHED[kind]
+        for t in range(case['count']):
+            sub = dict(case)
+            sub['j'] = case['j0'] + t
+            fn(sub, ctx, tv, np.random.default_rng([case['seed'], t]))
     elif kind == 'vdelta':
-        run_vdelta(case, ctx, tv, rng)
+        run_vdelta(case, ctx, tv, np.random.default_rng(case['seed']))
     elif kind == 'mdelta':
-        run_mdelta(case, ctx, tv, rng)
-    elif kind == 'vdelta_big':
-        run_delta_big(case, ctx, tv, rng, False)
-    elif kind == 'mdelta_big':
-        run_delta_big(case, ctx, tv, rng, True)
-    elif kind == 'poly':
-        run_poly(case, ctx, tv, rng)
-    elif kind == 'rand':
-        run_rand(case, ctx, tv, rng, False)
-    elif kind == 'rand_norm':
-        run_rand(case, ctx, tv, rng, True)
-    elif kind == 'rand_custom':
-        run_rand_custom(case, ctx, tv, rng)
-    elif kind == 'rand_stab':
-        run_rand_stab(case, ctx, tv, rng, False)
-    elif kind == 'rand_stab_big':
-        run_rand_stab(case, ctx, tv, rng, True)
+        run_mdelta(case, ctx, tv, np.random.default_rng(case['seed']))
     else:
         raise ValueError(kind)
